@@ -164,9 +164,32 @@ def clause2_atomic(ctx, P, cg):
            "(the only crash-atomic replacement POSIX offers)" if bad is not None else
            "all %d success path(s) follow write -> fsync -> rename" % len(ok_paths),
            witness=bad.witness() if bad is not None else None)
-    for r in renames:
-        # the rename success edge must dominate the success return
-        pass
+    # every step that can fail makes the update fail: a path on which write/fsync/close/rename/mkstemp reported failure
+    # must not return success
+    steps = ("fsync", "close", "rename", "mkstemp", "fchmod", "write", "pwrite")
+    unreported = None
+    for v in views:
+        failed = None
+        for k, (b, a, p) in enumerate(v.path):
+            if a is None:
+                continue
+            if a[0] == "cmp" and a[2][0] == "call" and a[2][1] in steps and a[3][0] == "const":
+                eff = a[1] if p else Q.negate_pred(a[1])
+                if (eff == "slt" and a[3][1] == 0) or (eff == "eq" and a[3][1] == -1) or (eff == "ne" and a[3][1] == 0 and a[2][1] in ("rename", "fsync", "close")):
+                    cblk = w.insts[a[2][3]].block if a[2][3] in w.insts else None
+                    EINTR = Q.macro(P, "auth_file.c", "EINTR")
+                    retried = (cblk is not None and any(bb == cblk for (bb, _, _) in v.path[k:])) or \
+                        any(a2 is not None and a2[0] == "cmp" and a2[2][0] == "load" and Q.is_call_to(a2[2][1], "__errno_location")
+                            and a2[3] == ("const", EINTR) and Q._poleq(a2, p2) for (_, a2, p2) in v.path[k:])
+                    if not retried:
+                        failed = a[2][1]
+        rc = v.ret_const()
+        if failed and (rc is None or rc >= 0):
+            unreported = (v, failed)
+    ctx.ob("C20.2 R-PROTO", w, "failing-step-fails-update", unreported is None,
+           "the credential-file update returns success on a path where %s() reported failure: the client is told the password was "
+           "changed although the file on disk still holds the old credentials" % (unreported[1] if unreported else ""),
+           witness=unreported[0].witness() if unreported else None)
     ctx.floor("C20.2 R-PROTO", 1)
 
 
